@@ -360,3 +360,13 @@ VERUS_UNITS["C12"] = dict(prop="C12", template="contracts/verus/c12.rs.tmpl", ge
                  "core::mem::take on Vec<T> returns the old vector and leaves an empty one (assumed contract vpv_mem_take_vec)",
                  "chrono timestamp_millis and the FxHashMap column cache are opaque (their values do not influence which events are emitted)",
                  "count >= 1 (CountWindow::new(0) would emit every event as a window of one: excluded by precondition)"])
+
+
+VERUS_UNITS["C13"] = dict(prop="C13", template="contracts/verus/c13.rs.tmpl", gen_name="c13", ledger="obligations/c13.json", level="other",
+    explanation=("PARTIAL: COUNT-SLIDING WINDOW ONLY (time-sliding windows compare chrono instants and are NOT decided; partitioned variants sit on hash maps). "
+                 "SlidingCountWindow::{new, add_shared, current_count} (window.rs) are extracted mechanically and verified by Verus: after every arrival the retained events are exactly "
+                 "the last min(n, N) events in arrival order; an emission happens EXACTLY when the window is full and at least `slide` events arrived since the previous emission, "
+                 "and it contains exactly the last N events in arrival order; the slide counter is reset on emission and incremented otherwise."),
+    assumptions=["R14: `(c).then(|| e)` is `if c { Some(e) } else { None }`",
+                 "assumed std contracts: VecDeque::drain(0..n) removes the first n elements; iter().map(Arc::clone).collect() copies the contents front to back; usize::saturating_sub",
+                 "window_size >= 1; events_since_emit < usize::MAX (2^64 arrivals without an emission would overflow the counter)"])
